@@ -771,6 +771,7 @@ func init() {
 		return &v
 	})
 	reg("(*time.Ticker).Stop", func(in *Interp, fr *frame, a []Value) Value { return nil })
+	reg("(*time.Ticker).Reset", func(in *Interp, fr *frame, a []Value) Value { return nil })
 	reg("context.WithTimeout", func(in *Interp, fr *frame, a []Value) Value {
 		return Tuple{a[0], &Native{name: "cancel", fn: func(in *Interp, args []Value) Value { return nil }}}
 	})
